@@ -8,6 +8,7 @@ R3 truth table of bytes_compare (memcmp sign x length relation -> result sign), 
 R4 in-block search sites (T-cmp rows 7, 9, 11) - shared helper with C03.R4.
 R5 index separator coupling in mtbl_writer_add (separator computed iff a block is cut,
    immediately before the flush, before the last key is replaced).
+R6 dispatch wiring (rules/dispatch.py): the mtbl_iter / mtbl_source function tables are registered, called (own closure, own slot, parameters forwarded in order) and filled at every construction site without cross-wiring slots of equal signature.
 """
 import re
 from .common import *
@@ -293,6 +294,10 @@ def run(ctx, res):
                   "separator/flush coupling broken: calls %s" % [n for n in names if n in ("bytes_shortest_separator", "_mtbl_writer_flush", "ubuf_reset", "ubuf_append")],
                   add.loc(add.body), p.describe(add))
 
+
+    # ---- dispatch wiring --------------------------------------------------------------------------
+    from . import dispatch
+    dispatch.check(ctx, res, "C02.R6")
 
 def _signed_char_relations(funcs):
     out = []
